@@ -1,206 +1,21 @@
-// C20 correspondence harness, part 1: std::list / std::forward_list with momo's pool allocator; the allocator-level
-// suites for every pool parameter 1..32 blocks per buffer; the dedicated case of the open finding F13.
-// See c20_alloc.h for the machinery and the oracles.
+// C20 correspondence harness, part 2: std::list / std::forward_list with momo's pool allocator against twins with
+// std::allocator and against the Lean model (allocator level and container level).  See c20_alloc.h / c20_world.h.
 #include "c20_world.h"
 
 using namespace c20;
 
-// ------------------------------------------------------------------------------------------------ allocator level
-// Random allocate / deallocate histories through allocator objects of several value types that share pools by
-// rebinding.  A single object is only requested for a type the pool is parameterised for or when the pool is idle
-// (then it is re-parameterised): this is "one single-object type per busy pool", the hypothesis of
-// C20_dealloc_provenance_no_raw_single; arrays of every type are allowed at any time.
-
-template<size_t tSize, size_t tAlign> struct alignas(tAlign) Obj { unsigned char b[tSize]; };
-
-template<typename TCfg>
-struct Direct {
-	Ctx& c; Rng& rng; std::string name;
-	struct Blk { void* p; size_t n; int type; int pool; uint8_t pat; };
-	std::vector<Blk> blocks;
-	// one allocator object per (slot); its value type is one of the 5 types below
-	typedef Obj<4, 4> T0; typedef Obj<24, 8> T1; typedef Obj<40, 8> T2; typedef Obj<16, 16> T3; typedef Obj<3, 1> T4;
-	std::optional<LogA<T0, TCfg>> h[4];
-	std::vector<std::string> history;
-
-	Direct(Ctx& c_, Rng& r, const std::string& n) : c(c_), rng(r), name(n) {}
-	std::string tail() const { std::string s; size_t from = history.size() > 14 ? history.size() - 14 : 0; for (size_t i = from; i < history.size(); ++i) { s += history[i]; s += "; "; } return s; }
-	void note(const std::string& s) { history.push_back(s); tracer().note(s); c.stats.evaluations++; }
-
-	template<typename T> static size_t tsize() { return sizeof(T); }
-	template<typename F> void withType(int type, F f) {
-		switch (type) { case 0: f((T0*)nullptr); break; case 1: f((T1*)nullptr); break; case 2: f((T2*)nullptr); break; case 3: f((T3*)nullptr); break; default: f((T4*)nullptr); break; }
-	}
-	int pickHandle(bool full) { int t[4], n = 0; for (int i = 0; i < 4; ++i) if ((bool)h[i] == full) t[n++] = i; return n ? t[rng.below(n)] : -1; }
-
-	void run(unsigned steps) {
-		arena().restart();
-		for (unsigned s = 0; s < steps; ++s) {
-			unsigned r = (unsigned)rng.below(100);
-			int hf = pickHandle(true), he = pickHandle(false);
-			if (hf < 0 || (r < 6 && he >= 0)) {
-				if (he < 0) continue;
-				if (hf >= 0 && rng.chance(1, 2)) { h[he].emplace(*h[hf]); note(fmt("h%d = copy of h%d", he, hf)); c.stats.count("direct.share"); }
-				else { h[he].emplace(BaseA(&arena())); note(fmt("h%d = new allocator object", he)); c.stats.count("direct.new_pool"); }
-			} else if (r < 10) {
-				// drop an allocator object unless it is the last one attached to a pool with live blocks
-				int pool = h[hf]->pid(); long rc = h[hf]->view().rc;
-				bool busy = false; for (auto& b : blocks) if (b.pool == pool) busy = true;
-				if (rc == 1 && busy) continue;
-				h[hf].reset(); note(fmt("drop h%d", hf)); c.stats.count("direct.drop");
-			} else if (r < 60) {
-				int type = (int)rng.below(5);
-				size_t n = rng.chance(3, 4) ? 1 : (size_t)rng.range(2, 9);
-				withType(type, [&](auto* tp) {
-					typedef typename std::remove_pointer<decltype(tp)>::type T;
-					LogA<T, TCfg> a(*h[hf]);		// rebinding conversion: shares the pool
-					if (n == 1) {
-						PoolView v = a.view();
-						auto par = LogA<T, TCfg>::Inner::pvGetMemPoolParams();
-						bool equal = par.GetBlockSize() == v.S && par.GetBlockAlignment() == v.A;
-						if (!equal && v.ac != 0) { c.stats.count("direct.single_skipped_pool_busy_with_other_type"); return; }
-						if (!equal) c.stats.count("direct.reparameterise");
-					}
-					T* p = a.allocate(n);
-					uint8_t pat = (uint8_t)rng.below(251);
-					memset((void*)p, pat, n * sizeof(T));
-					blocks.push_back(Blk{ p, n, type, a.pid(), pat });
-					note(fmt("h%d<%zu/%zu>.allocate(%zu)", hf, sizeof(T), alignof(T), n));
-					c.stats.count(n == 1 ? "direct.allocate_single" : "direct.allocate_array");
-				});
-			} else if (!blocks.empty()) {
-				size_t bi = (size_t)rng.below(blocks.size());
-				Blk b = blocks[bi];
-				// an allocator object attached to the pool the block came from
-				int via = -1; for (int i = 0; i < 4; ++i) if (h[i] && h[i]->pid() == b.pool) via = i;
-				if (via < 0) { c.fail("harness: no allocator object attached to pool %d", b.pool); continue; }
-				withType(b.type, [&](auto* tp) {
-					typedef typename std::remove_pointer<decltype(tp)>::type T;
-					const uint8_t* q = (const uint8_t*)b.p;
-					for (size_t i = 0; i < b.n * sizeof(T); ++i) if (q[i] != b.pat) {
-						c.fail("C20 overlap: %s: byte %zu of a live block (%zu x %zu) changed from %u to %u; history: %s", name.c_str(), i, b.n, sizeof(T), b.pat, q[i], tail().c_str());
-						break;
-					}
-					LogA<T, TCfg> a(*h[via]);
-					a.deallocate((T*)b.p, b.n);
-					note(fmt("h%d<%zu/%zu>.deallocate(%zu)", via, sizeof(T), alignof(T), b.n));
-					c.stats.count("direct.deallocate");
-				});
-				blocks[bi] = blocks.back(); blocks.pop_back();
-			}
-			// GetAllocateCount of every pool = live single blocks of it
-			for (int i = 0; i < 4; ++i) if (h[i]) {
-				size_t singles = 0; for (auto& b : blocks) if (b.pool == h[i]->pid() && b.n == 1) ++singles;
-				if (h[i]->view().ac != singles) c.fail("C20 count: %s: GetAllocateCount() = %zu, live single blocks %zu; history: %s", name.c_str(), h[i]->view().ac, singles, tail().c_str());
-			}
-		}
-		// release everything
-		while (!blocks.empty()) {
-			Blk b = blocks.back(); blocks.pop_back();
-			int via = -1; for (int i = 0; i < 4; ++i) if (h[i] && h[i]->pid() == b.pool) via = i;
-			if (via < 0) continue;
-			withType(b.type, [&](auto* tp) { typedef typename std::remove_pointer<decltype(tp)>::type T; LogA<T, TCfg> a(*h[via]); a.deallocate((T*)b.p, b.n); });
-		}
-		for (int i = 0; i < 4; ++i) h[i].reset();
-		if (!arena().live.empty())
-			c.fail("C20 leak: %s: all blocks deallocated and all allocator objects destroyed but %zu block(s) of the base allocator are outstanding; history: %s", name.c_str(), arena().live.size(), tail().c_str());
-		arena().live.clear(); arena().liveBytes = 0;
-	}
-};
-
-template<size_t N, size_t C>
-static void runDirect(Ctx& c, Rng& rng, unsigned steps) {
-	typedef Cfg<N, C> TCfg;
-	std::string tag = fmt("direct_N%zu_C%zu", N, C);
-	Suite tr(c, tag + ".trace", TCfg::modelLine("trace"));
-	std::string name = fmt("%s N=%zu C=%zu", tag.c_str(), N, C);
-	tracer().reset(c, &tr, name);
-	{ Direct<TCfg> d(c, rng, name); d.run(steps); c.stats.nontrivial(name); c.stats.sample(fmt("%s: %s", name.c_str(), d.tail().c_str()), 3); }
-	tracer().trace = nullptr;
-}
-
-// every number of blocks per buffer 1..32, cached free block counts 0, 1, 2, 16
-template<size_t N> static void directAll(Ctx& c, Rng& rng, unsigned steps) {
-	runDirect<N, (N % 4 == 0) ? 16 : (N % 4 == 1) ? 0 : (N % 4 == 2) ? 1 : 2>(c, rng, steps);
-	if constexpr (N < 32) directAll<N + 1>(c, rng, steps);
-}
-
-// ------------------------------------------------------------------------------------------------ finding F13 (dedicated, tagged)
-// One allocator object handed to two containers with different node types.  The provenance oracle of the reporting
-// shell stops the block from reaching the wrong place (so the process survives) and reports the tagged FAIL line;
-// model and implementation agree on every line up to and including the violating deallocate.
-
-template<typename TCfg>
-static void runF13(Ctx& c, const char* tag) {
-	Suite tr(c, std::string(tag) + ".trace", TCfg::modelLine("trace"));
-	Suite co(c, std::string(tag) + ".cont", TCfg::modelLine("cont"));
-	std::string name = fmt("%s list<int> + set<int> constructed from one allocator object, N=%zu C=%zu", tag, TCfg::N, TCfg::C);
-	tracer().reset(c, &tr, name);
-	tracer().f13Case = true;
-	{
-		typedef LogA<int, TCfg> AI;
-		auto beginOp = [&]() { tracer().acts.clear(); tracer().newPools.clear(); };
-		auto acts = [&]() {
-			std::string s;
-			for (auto& a : tracer().acts) {
-				std::string b; for (size_t x : a.bufs) { if (!b.empty()) b += ','; b += std::to_string(x); }
-				if (b.empty()) b = "-";
-				if (a.isAlloc) s += fmt(" +%lld:%zu:%zu:%zu:%s", a.id, a.tsize, a.talign, a.n, b.c_str()); else s += fmt(" -%lld:%s", a.id, b.c_str());
-			}
-			return s;
-		};
-		beginOp();
-		AI al{ BaseA(&arena()) };
-		std::list<int, AI>* l = nullptr; std::set<int, std::less<int>, AI>* s = nullptr;
-		auto emit = [&](const std::string& line) {
-			tracer().note(line);
-			if (tracer().provenanceFired) { co.op(line); co.res(fmt("ERR rawIntoPool %lld", tracer().acts.empty() ? -1ll : tracer().acts.back().id)); return; }
-			std::string r = fmt("e0:p0:n0:a0");
-			if (l) r += fmt(" e1:p0:n%zu:a0", l->size());
-			if (s) r += fmt(" e2:p0:n%zu:a0", s->size());
-			r += " | " + Tracer::poolStr(0, al.view()) + fmt(" | L=%zu", arena().live.size());
-			co.op(line); co.res(r);
-			c.stats.evaluations++;
-		};
-		emit(fmt("newAlloc 0 %zu %zu %lld", tracer().newPools[0].tsize, tracer().newPools[0].talign, tracer().newPools[0].cb));
-		std::list<int, AI> ll(al); l = &ll; emit("newFrom 1 0");
-		std::set<int, std::less<int>, AI> ss(al); s = &ss; emit("newFrom 2 0");
-		beginOp(); ll.push_back(1); emit("mutate 1" + acts());		// pool parameterised for the list node
-		beginOp(); ss.insert(1); emit("mutate 2" + acts());			// raw allocation: parameters differ, pool busy
-		beginOp(); ll.clear(); emit("mutate 1" + acts());			// pool idle
-		beginOp(); ss.insert(2); emit("mutate 2" + acts());			// pool re-parameterised for the set node
-		beginOp(); ss.erase(1);										// the raw block is handed to the pool
-		bool fired = tracer().provenanceFired;
-		emit("mutate 2" + acts());
-		if (!fired) c.stats.count("f13.not_reproduced");
-		else c.stats.count("f13.reproduced");
-		ss.insert(3); ss.insert(4);
-	}
-	tracer().f13Case = false;
-	tracer().trace = nullptr;
-	arena().live.clear(); arena().liveBytes = 0;
-	c.stats.nontrivial(name);
-}
-
 int main(int argc, char** argv)
 {
 	Ctx c = parseArgs(argc, argv);
-	Rng rng(c.seed * 0x1000 + 20);
+	Rng rng(c.seed * 0x1000 + 21);
 	arena().init(c); arena().rng = &rng;
-	const unsigned steps = c.thorough ? 700 : 220;
-	const unsigned rounds = c.thorough ? 3 : 1;
-
-	runF13<Cfg<32, 16>>(c, "f13a");
-	runF13<Cfg<4, 0>>(c, "f13b");
-
+	const unsigned steps = c.thorough ? 1200 : 400;
+	const unsigned rounds = c.thorough ? 6 : 2;
 	for (unsigned round = 0; round < rounds; ++round) {
-		std::string r = rounds > 1 ? fmt("r%u_", round) : "";
-		directAll<1>(c, rng, c.thorough ? 500 : 160);
-
+		std::string r = fmt("r%u_", round);
 		runTraced<KList<int>, Cfg<32, 16>>(c, rng, r + "list_int_a", steps);
 		runTraced<KList<int>, Cfg<1, 0>>(c, rng, r + "list_int_b", steps);
 		runTraced<KList<int>, Cfg<2, 1>>(c, rng, r + "list_int_c", steps);
-		runTraced<KList<int>, Cfg<5, 16>>(c, rng, r + "list_int_d", steps);
 		runTraced<KList<Big>, Cfg<3, 0>>(c, rng, r + "list_big_a", steps);
 		runTraced<KList<Big>, Cfg<13, 2>>(c, rng, r + "list_big_b", steps);
 		runTraced<KList<std::string>, Cfg<8, 16>>(c, rng, r + "list_str_a", steps);
@@ -210,7 +25,6 @@ int main(int argc, char** argv)
 		runTraced<KFwd<int>, Cfg<6, 16>>(c, rng, r + "fwd_int_b", steps);
 		runTraced<KFwd<std::string>, Cfg<7, 1>>(c, rng, r + "fwd_str_a", steps);
 		runTraced<KFwd<Big>, Cfg<1, 2>>(c, rng, r + "fwd_big_a", steps);
-
 		// the momo allocator itself, without the reporting shell (default parameters and two others)
 		runPlain<KList<int>, Cfg<momo::MemPoolConst::defaultBlockCount, momo::MemPoolConst::defaultCachedFreeBlockCount>>(c, rng, r + "list_int", steps);
 		runPlain<KList<std::string>, Cfg<4, 0>>(c, rng, r + "list_str", steps);
